@@ -172,6 +172,33 @@ func cliScriptTerm(s peer.CliScript) string {
 		methList(split(s.Methods)), ciphList(split(s.Ciphers)), keyTerm(s.Key), core.List(ms))
 }
 
+
+// batcher groups runs into one Coq case (a list of case1 terms): Coq's start-up
+// cost per case file dominates, so fewer, larger files are much faster.
+type batcher struct {
+	c     *core.Ctx
+	n     int
+	terms []string
+	descs []interface{}
+}
+
+func (b *batcher) add(term string, desc interface{}) {
+	b.terms = append(b.terms, term)
+	b.descs = append(b.descs, desc)
+	b.c.Evaluated(1)
+	if len(b.terms) >= b.n {
+		b.flush()
+	}
+}
+func (b *batcher) flush() {
+	if len(b.terms) == 0 {
+		return
+	}
+	b.c.AddCase(core.List(b.terms), map[string]interface{}{"batch": b.descs})
+	b.c.Evaluated(-1)
+	b.terms, b.descs = nil, nil
+}
+
 // ---------- one run ----------------------------------------------------------
 
 type spec struct {
@@ -601,6 +628,8 @@ func gen(c *core.Ctx) error {
 	}
 	wg.Wait()
 	fails := map[string]int{}
+	bt := &batcher{c: c, n: 6}
+	defer bt.flush()
 	for i, sp := range specs {
 		o := res[i]
 		c.OracleCheck()
@@ -611,7 +640,7 @@ func gen(c *core.Ctx) error {
 					sp.Cfg.Auth, sp.Cfg.Enc, sp.Cfg.Integ, sp.Cfg.Methods, sp.Cfg.Ciphers, sp.Tag), sp)
 			}
 		}
-		c.AddCase(caseTerm(sp, o), sp)
+		bt.add(caseTerm(sp, o), sp)
 		role := sp.Kind
 		switch {
 		case o.Err:
@@ -644,6 +673,17 @@ func gen(c *core.Ctx) error {
 
 func replay(raw json.RawMessage) error {
 	peer.Quiet()
+	var bd struct {
+		Batch []json.RawMessage `json:"batch"`
+	}
+	if json.Unmarshal(raw, &bd) == nil && len(bd.Batch) > 0 {
+		for _, x := range bd.Batch {
+			if err := replay(x); err != nil {
+				return err
+			}
+		}
+		return nil
+	}
 	var sp spec
 	if err := json.Unmarshal(raw, &sp); err != nil {
 		return err
